@@ -172,6 +172,18 @@ where
         &mut self,
         incoming: SessionIncomingItem,
     ) -> Result<Running, SessionInnerError> {
+        // Once the local end has been sent nothing more may be written on the channel.
+        // Frames the peer had sent before it saw the end (flows that would release
+        // held-back transfers or ask for an echo, transfers, dispositions that would be
+        // echoed) can no longer be acted on; only the peer's end matters.
+        if matches!(
+            self.session.local_state(),
+            SessionState::EndSent | SessionState::Discarding
+        ) && !matches!(incoming.body, SessionFrameBody::End(_))
+        {
+            return Ok(Running::Continue);
+        }
+
         let SessionFrame { channel, body } = incoming;
         let channel = IncomingChannel(channel);
         match body {
